@@ -173,6 +173,12 @@ def enumerate_cases(tier, shard=0, nshards=1):
                           'concat-range'):
                 out.append({'k': 'is-route', 'fn': fn, 'code': code,
                             'route': route})
+    # inspectors applied to the RESULT OF ANOTHER FUNCTION, handed over
+    # directly as an argument (a boolean stays a boolean, a number a number)
+    for fn in ('ISNUMBER', 'ISTEXT', 'ISBLANK', 'ISERROR', 'ISERR', 'ISNA'):
+        for inner, kind in NESTED:
+            out.append({'k': 'is-nested', 'fn': fn, 'inner': inner,
+                        'kind': kind})
     out.append({'k': 'is', 'fn': 'NA', 'arg': None, 'mode': 'call'})
     out.append({'k': 'is', 'fn': 'NA', 'arg': None, 'mode': 'formula'})
     for i, c in enumerate(out):
@@ -330,6 +336,8 @@ def judge(case):
         return _op_types(case, res)
     if k == 'chain':
         return _chain(case, res)
+    if k == 'is-nested':
+        return _is_nested(case, res)
     if k == 'is':
         return _is(case, res)
     if k == 'is-route':
@@ -564,6 +572,39 @@ def _chain(case, res):
         if stored != E(code):
             res.fail('chain:stored-value', E(code), stored, [i, cells])
             break
+    return res
+
+
+# (formula text, kind of its value) over A1 = 1/0, A2 = NA(), A3 = "txt",
+# A4 = 7, A5 blank
+NESTED = [('ISERROR(A1)', 'b'), ('ISNA(A2)', 'b'), ('ISERR(A4)', 'b'),
+          ('ISNUMBER(A4)', 'b'), ('ISTEXT(A3)', 'b'), ('ISBLANK(A5)', 'b'),
+          ('IF(FALSE,1)', 'b'), ('A4>3', 'b'), ('AND(TRUE,A4)', 'b'),
+          ('NOT(A4)', 'b'), ('EXACT(A3,"txt")', 'b'),
+          ('LEN(A3)', 'n'), ('SUM(A4,1)', 'n'), ('ROUND(A4/2,0)', 'n'),
+          ('A4*2', 'n'), ('ABS(-A4)', 'n'), ('COUNT(A4:A5)', 'n'),
+          ('LEFT(A3,2)', 's'), ('A4&""', 's'), ('UPPER(A3)', 's'),
+          ('CONCATENATE(A3,A4)', 's'), ('IF(TRUE,"t",1)', 's'),
+          ('A1', 'e:#DIV/0!'), ('A2', 'e:#N/A'), ('A1+1', 'e:#DIV/0!'),
+          ('SUM(A2,1)', 'e:#N/A')]
+
+
+def _is_nested(case, res):
+    fn, inner, kind = case['fn'], case['inner'], case['kind']
+    res.nontrivial = True
+    is_err = kind.startswith('e:')
+    if is_err and fn in ('ISNUMBER', 'ISTEXT', 'ISBLANK'):
+        res.nontrivial = False      # type of a NON-error value only
+        return res
+    want = {'ISERROR': is_err, 'ISERR': is_err and kind != 'e:#N/A',
+            'ISNA': kind == 'e:#N/A', 'ISNUMBER': kind == 'n',
+            'ISTEXT': kind == 's', 'ISBLANK': False}[fn]
+    cells = {'Sheet1!A1': '=1/0', 'Sheet1!A2': '=NA()', 'Sheet1!A3': 'txt',
+             'Sheet1!A4': 7}
+    f = '=%s(%s)' % (fn, inner)
+    o = lib.eval_formula(f, cells, addr='Sheet1!Z1')[0]
+    if o != ('B', want):
+        res.fail('inspector-nested:%s:%s' % (fn, kind[0]), ('B', want), o, f)
     return res
 
 
